@@ -242,6 +242,8 @@ impl Prop for C03 {
         }
         // container level: whole files against the Lean models of the MSG / STD / mission / old ECL readers and writers
         out.extend(super::files::gen_cases(rng, scale, false));
+        // the ANM container against `Files.readAnm` / `writeAnm` (Model/FilesAnm.lean)
+        out.extend(super::files_anm::gen_cases(rng, scale, false));
         for _ in 0..500 * scale {
             let (f, g, text) = boundary_source(rng);
             out.push(Case::search(Sexp::app("file", vec![Sexp::atom(f.name()), Sexp::atom(format!("{}", g)), Sexp::list(vec![]), Sexp::str(text)])).tag(format!("boundary-file-{}", f.name())));
@@ -257,6 +259,10 @@ impl Prop for C03 {
             Some("wfile") => super::files::eval_wfile(case),
             Some("wrfile") => super::files::eval_wrfile(case),
             Some("metafield") => super::files::eval_metafield(case),
+            Some("ranm") => super::files_anm::eval_ranm(case),
+            Some("wanm") => super::files_anm::eval_wanm(case),
+            Some("wranm") => super::files_anm::eval_wranm(case),
+            Some("anmsrc") => super::files_anm::eval_anmsrc(case),
             Some("wr-roundtrip") => {
                 let w = eval_winstr(case, false);
                 if w.head() != Some("ok") { return Sexp::app("rejected", vec![]); }
